@@ -4,10 +4,10 @@
 cd /verif
 for d in seeded/*/; do
   id=$(basename $d)
-  for prop in $(python3 -c "import json;print(' '.join(json.load(open('$d/meta.json'))['caught_by_quick_checks']))" 2>/dev/null); do
+  for prop in $(python3 -c "import json;print(' '.join(json.load(open('$d/meta.json'))['caught_by_quick_checks'][:1 if '$FIRST_ONLY'=='1' else None]))" 2>/dev/null); do
     [ "$prop" = "C04" ] && continue   # real-thread races: no deterministic replay
     [ -f replays/$prop/seeded-$id.case ] && continue
-    out=$(tools/with_patch_wt.sh $d/patch.diff ./check $prop 2>&1 | grep -m1 "^VIOLATION" | sed 's/.*replay=//')
+    out=$(VERIF_STOP_AT_FIRST=1 tools/with_patch_wt.sh $d/patch.diff ./check $prop 2>&1 | grep -m1 "^VIOLATION" | sed 's/.*replay=//')
     [ -z "$out" ] || [ ! -f "$out" ] && { echo "$id/$prop: no violation file"; continue; }
     mkdir -p replays/$prop
     grep -v "^#" "$out" > /tmp/harvest.case
